@@ -165,6 +165,15 @@ def handle : List Sexp → String
     match parseV v, parseT t with
     | some v, some t => renderOV (get t (push v))
     | _, _ => "bad-request"
+  | [.atom "de", t, v] =>
+    match parseT t, parseV v with
+    | some t, some v =>
+      match de t t (push v) with
+      | .ok w => if renderV w == renderV v then "ok" else "(differs " ++ renderV w ++ ")"
+      | .err => "error"
+      | .crash => "crash"
+      | .unmodelled => "unmodelled"
+    | _, _ => "bad-request"
   | [.atom "gg", actual, requested] =>
     match parseT actual, parseT requested with
     | some a, some r => match getGlobal r a with
